@@ -302,7 +302,8 @@ static std::string repo_root(){ const char *r = getenv("VERIF_REPO"); return r ?
 static std::vector<Cfg> unit_cfgs(const Unit &u){
     std::vector<Cfg> out; bool th = (g_tier == "thorough"); int d = u.dims;
     std::vector<std::vector<double>> AB = {{0, 0}};
-    if (usesAlpha(u.rule)){ AB = {{0.5, 1.5}, {0, 0}}; if (th){ AB.push_back({1.5, 0.5}); if (!unbounded(u.rule)) AB.push_back({-0.5, -0.5}); else AB.push_back({2.0, 0}); } }
+    // parameter alphabet incl. the special values alpha = beta = 0 (Legendre), alpha + beta = -1 (removable singularity of the Jacobi recurrence), alpha = -1/2 (Chebyshev weight)
+    if (usesAlpha(u.rule)){ AB = {{0.5, 1.5}, {0, 0}}; if (!unbounded(u.rule)) AB.push_back({-0.5, -0.5}); if (th){ AB.push_back({1.5, 0.5}); if (!unbounded(u.rule)) AB.push_back({-0.25, -0.75}); else { AB.push_back({2.0, 0}); AB.push_back({-0.5, 0}); } } }
     if (usesAlpha(u.rule) && !usesBeta(u.rule)) for(auto &ab : AB) ab[1] = 0;
     std::vector<int> trs = {0, 1};
     std::vector<double> ta = {-0.7, 0.4, 1.0}, tb = {2.1, 3.0, 1.5};
